@@ -3328,6 +3328,9 @@ type ExpressionEmitter struct {
 	// Passed by value to ensure nested loops get isolated copies.
 	loopCtx LoopContext
 
+	// Merge labels of switches that a break has branched to.
+	breakTaken map[uint32]bool
+
 	// Cached call result IDs (set by emitCall, read by ExprCallResult)
 	callResultIDs map[ir.ExpressionHandle]uint32
 
@@ -6015,6 +6018,10 @@ func (e *ExpressionEmitter) emitStatement(stmt ir.Statement) error {
 		if e.loopCtx.BreakID == 0 {
 			return fmt.Errorf("break statement outside of loop or switch")
 		}
+		if e.breakTaken == nil {
+			e.breakTaken = make(map[uint32]bool)
+		}
+		e.breakTaken[e.loopCtx.BreakID] = true
 		e.consumeBlock(makeBranchInstruction(e.loopCtx.BreakID))
 		return nil
 
@@ -6615,6 +6622,7 @@ func (e *ExpressionEmitter) emitSwitch(stmt ir.StmtSwitch) error {
 
 	// Emit each case block
 	allCasesTerminated := true
+	mergeReached := false // a case body ran to its end and branched to the merge block
 	for i, c := range stmt.Cases {
 		caseBlock := NewBlock(caseLabels[i])
 		e.setCurrentBlock(&caseBlock)
@@ -6633,6 +6641,7 @@ func (e *ExpressionEmitter) emitSwitch(stmt ir.StmtSwitch) error {
 				targetLabel = caseLabels[i+1]
 			} else {
 				targetLabel = mergeLabel
+				mergeReached = true
 			}
 			e.consumeBlock(makeBranchInstruction(targetLabel))
 		}
@@ -6647,6 +6656,11 @@ func (e *ExpressionEmitter) emitSwitch(stmt ir.StmtSwitch) error {
 
 	// If all cases terminated, merge block is unreachable
 	if allCasesTerminated {
+		e.consumeBlock(Instruction{Opcode: OpUnreachable})
+	} else if !mergeReached && !e.breakTaken[mergeLabel] && e.function.Result != nil && !e.isEntryPoint {
+		// Only fall-through groups (case 1, 2: { return a; }) were still live, they
+		// continue in the next case, and no break leaves the switch: a function with
+		// a result would otherwise be reported as missing its return after it.
 		e.consumeBlock(Instruction{Opcode: OpUnreachable})
 	}
 
